@@ -50,16 +50,23 @@ def renderAttr (a : Attr) : Str := if a.val.isEmpty then a.key else a.key ++ 58 
 def renderMediaName (m : MediaD) : Str :=
   m.media ++ b!" 0 " ++ joinWith [47] m.protos ++ 32 :: joinWith [32] m.fmts
 
-def renderMediaLines (m : MediaD) : List Str :=
-  (b!"m=" ++ renderMediaName m) :: m.attrs.map fun a => b!"a=" ++ renderAttr a
+/-- `a=<attribute>` -/
+def attrLine (a : Attr) : Str := 97 :: 61 :: renderAttr a
 
-/-- The lines of the SDP that `Session.Marshal` produces: fixed `v= o= c= t=` lines (the connection
-address depends on `Multicast`), the session name, session attributes, medias. -/
-def renderLines (multicast : Bool) (d : Doc) : List Str :=
-  [b!"v=0", b!"o=- 0 0 IN IP4 127.0.0.1", b!"s=" ++ d.name,
+/-- `m=<media name>` -/
+def mediaNameLine (m : MediaD) : Str := 109 :: 61 :: renderMediaName m
+
+def renderMediaLines (m : MediaD) : List Str := mediaNameLine m :: m.attrs.map attrLine
+
+/-- the fixed lines `Session.Marshal` sets: version, origin `- 0 0 IN IP4 127.0.0.1`, session name,
+connection (the address depends on `Multicast`), timing `0 0` -/
+def headerLines (multicast : Bool) (name : Str) : List Str :=
+  [b!"v=0", b!"o=- 0 0 IN IP4 127.0.0.1", 115 :: 61 :: name,
    if multicast then b!"c=IN IP4 224.1.0.0" else b!"c=IN IP4 0.0.0.0", b!"t=0 0"]
-  ++ d.attrs.map (fun a => b!"a=" ++ renderAttr a)
-  ++ d.medias.flatMap renderMediaLines
+
+/-- The lines of the SDP that `Session.Marshal` produces: header, session attributes, medias. -/
+def renderLines (multicast : Bool) (d : Doc) : List Str :=
+  headerLines multicast d.name ++ d.attrs.map attrLine ++ d.medias.flatMap renderMediaLines
 
 /-- the marshalled text: every line is terminated by CR LF -/
 def render (multicast : Bool) (d : Doc) : Str := (renderLines multicast d).flatMap (· ++ crlf)
